@@ -297,10 +297,50 @@ Fixpoint pass_loop (cfg : config) (n : nat) (toks : list token) : option (option
     end
   end.
 
+(* FOR counts are evaluated by go/types.Eval like operands; the model's evaluator covers a fragment of it
+   and says so for operands (EUnmodelled -> CUnmodelled).  The expander has no such outcome, so a program
+   whose FOR or EQU lines step outside the fragment - a token the fragment lacks, or two operands with
+   nothing between them, which Go reads as one number ("71 189" is 71189) - is declared unmodelled as a
+   whole, before the passes: the correspondence does not compare it. *)
+Definition count_tok_ok (t : token) : bool :=
+  match t_typ t with
+  | tokText | tokComment => true
+  | _ => match to_etok t with Some _ => true | None => false end
+  end.
+Definition is_operand (t : token) : bool := match t_typ t with tokNumber | tokText => true | _ => false end.
+Fixpoint operand_adjacent (l : list token) : bool :=
+  match l with
+  | a :: ((b :: _) as r) => (is_operand a && is_operand b) || operand_adjacent r
+  | _ => false
+  end.
+Definition count_line_ok (st : option (list token)) : bool :=
+  match st with
+  | Some acc => forallb count_tok_ok acc && negb (operand_adjacent acc)
+  | None => true
+  end.
+Fixpoint counts_modelled (toks : list token) (st : option (list token)) : bool :=
+  match toks with
+  | [] => count_line_ok st
+  | t :: r =>
+    match t_typ t with
+    | tokNewline | tokEOF | tokError => count_line_ok st && counts_modelled r None
+    | _ =>
+      match st with
+      | Some acc => counts_modelled r (Some (acc ++ [t]))
+      | None =>
+        match t_typ t with
+        | tokText => if lower_is (t_val t) "for" || lower_is (t_val t) "equ" then counts_modelled r (Some []) else counts_modelled r None
+        | _ => counts_modelled r None
+        end
+      end
+    end
+  end.
+
 Definition compile_warrior (cfg : config) (inp : text) : cres :=
   match lex_ascii inp with
   | None => COutOfFuel
   | Some toks =>
+    if negb (counts_modelled toks None) then CUnmodelled else
     match pass_loop cfg (S max_for_passes) toks with
     | None => COutOfFuel
     | Some None => CErr
